@@ -10,18 +10,19 @@
 (* is accepted if SOME order reproduces the observation.  Differences are reported as DRIFT (rest of the           *)
 (* behaviour skipped); the L1 formulas readable off the observations are evaluated on every line.                 *)
 EXTENDS Actor, Json, IOUtils, TLCExt
-VARIABLES l, mode, base, beh
+VARIABLES l, mode, base, beh, hist
 
 Rec == ndJsonDeserialize(IOEnv.TRACE)
-tvars == <<s, l, mode, base, beh>>
+tvars == <<s, l, mode, base, beh, hist>>
 
 \* ---- the fixed scenario (the harness builds exactly this) ----
-TPeers == {"p1", "p2", "p3", "p4"}
+TPeers == {"p1", "p2", "p3", "p4", "g0"}      \* g0: a node at port 0 that some plans make every peer list (nothing can reach it)
 TTargets == {"A", "B", "S"}
-Rank(p) == CASE p = "p1" -> 1 [] p = "p2" -> 2 [] p = "p3" -> 3 [] OTHER -> 4
+Rank(p) == CASE p = "p1" -> 1 [] p = "p2" -> 2 [] p = "p3" -> 3 [] p = "p4" -> 4 [] OTHER -> 5    \* g0: farthest from A and S, closest to B
 TDist == [t \in TTargets |-> [p \in TPeers |-> IF t = "B" THEN 5 - Rank(p) ELSE Rank(p)]]
 TKnows == [p \in TPeers |-> [t \in TTargets |->
-             CASE t = "A" -> (CASE p = "p4" -> {"p3", "p4"} [] p = "p3" -> {"p2", "p3"} [] OTHER -> {"p1", "p2"})
+             CASE p = "g0" -> {}
+               [] t = "A" -> (CASE p = "p4" -> {"p3", "p4"} [] p = "p3" -> {"p2", "p3"} [] OTHER -> {"p1", "p2"})
                [] t = "B" -> (CASE p = "p4" -> {"p1", "p4"} [] p = "p1" -> {"p1", "p2"} [] p = "p2" -> {"p2", "p3"} [] OTHER -> {"p3"})
                [] OTHER -> {"p4"}]]
 TBoot == {"p4"}
@@ -88,6 +89,31 @@ CoreT == {"cand", "vis", "resp", "vals", "acks", "errs", "q_on", "p_on", "cache_
 CoreG == {"rt", "rt_seen", "done", "got"}
 TouchesCore(d) == \E x \in d : (x[1] = "-" /\ x[2] \in CoreG) \/ (x[1] # "-" /\ x[2] \in CoreT)
 
+\* observation history, kept in every mode: the (real) transaction ids for which an acknowledgement was read before the request
+\* expired, and the store requests of each target's put as last observed
+NoHist == [acked |-> {}, ptids |-> [t \in TTargets |-> {}]]
+HistAfter(e) ==
+  [acked |-> IF e.e = "tick" /\ e.input.dir = "resp" /\ e.input.kind = "ack" /\ e.input.tid \notin SeqSet(e.expired)
+             THEN hist.acked \cup {e.input.tid} ELSE hist.acked,
+   ptids |-> [t \in TTargets |-> IF e.proj.t[t].p_on THEN SeqSet(e.proj.t[t].p_tids) ELSE hist.ptids[t]]]
+\* C08 (observational): a put call that has just been answered Ok had one of ITS OWN store requests acknowledged - the
+\* requests its target's put was last seen to hold, against the acknowledgements read so far (this line's included)
+OkWithoutOwnAck(e) ==
+  LET h == HistAfter(e) IN
+  \E c \in SeqSet(e.proj.called) :
+     /\ TOpOf[c] = "put" /\ e.proj.done[c] = "ok" /\ e.outcomes[c] = 1
+     /\ ~e.proj.t[TTargetOf[c]].p_on                       \* the put is over (not: superseded by a put still running)
+     /\ hist.ptids[TTargetOf[c]] \cap h.acked = {}
+     /\ hist.ptids[TTargetOf[c]] # {}
+\* ... and conversely: a put call answered with a query error (timeout / error response - not the 3xx verdicts, whose early exit
+\* is KF-C08-1) although an acknowledgement of one of its own store requests was read before that request expired
+ErrDespiteOwnAck(e) ==
+  LET h == HistAfter(e) IN
+  \E c \in SeqSet(e.proj.called) :
+     /\ TOpOf[c] = "put" /\ e.proj.done[c] \notin {"pending", "ok", "dropped", "CasFailed", "NotMostRecent", "ConflictRisk", "NoClosestNodes"}
+     /\ e.outcomes[c] = 1 /\ ~e.proj.t[TTargetOf[c]].p_on
+     /\ hist.ptids[TTargetOf[c]] \cap h.acked # {}
+
 \* ---- L1 readable off one observed line ----
 L1(e) ==
   (IF \E c \in DOMAIN e.outcomes : e.outcomes[c] > 1 THEN {"C06_ExactlyOne"} ELSE {})
@@ -105,11 +131,18 @@ L1(e) ==
              IN IF rule = "go" THEN (IF e.proj.done[e.call] \in {"NotMostRecent", "CasFailed", "ConflictRisk"} THEN {"C17_ConflictTable"} ELSE {})
                 ELSE (IF e.proj.done[e.call] # rule THEN {"C17_ConflictTable"} ELSE {})
         ELSE {})
+  \cup (IF OkWithoutOwnAck(e) THEN {"C08_OkOnlyIfOwnAck"} ELSE {})
+  \cup (IF ErrDespiteOwnAck(e) THEN {"C08_OkIfOwnAck"} ELSE {})
+  \* C09: a transaction id belongs to one request: the id sets of the lookups and puts that are active at the same time are disjoint
+  \cup (IF \E t1 \in TTargets, t2 \in TTargets :
+             \/ (t1 # t2 /\ (SeqSet(e.proj.t[t1].q_tids) \cup SeqSet(e.proj.t[t1].p_tids)) \cap (SeqSet(e.proj.t[t2].q_tids) \cup SeqSet(e.proj.t[t2].p_tids)) # {})
+             \/ (SeqSet(e.proj.t[t1].q_tids) \cap SeqSet(e.proj.t[t1].p_tids) # {})
+        THEN {"C09_TidsDisjoint"} ELSE {})
   \* C17: concurrency errors are never produced for immutable puts
   \cup (IF \E c \in SeqSet(e.proj.called) : TOpOf[c] = "put" /\ TItemOf[c].kind = "imm" /\ e.proj.done[c] \in {"NotMostRecent", "CasFailed", "ConflictRisk"}
         THEN {"C17_NeverForOtherKinds"} ELSE {})
 
-TInit == /\ s = Init0 /\ l = 1 /\ mode = "skip" /\ base = 0 /\ beh = -1
+TInit == /\ s = Init0 /\ l = 1 /\ mode = "skip" /\ base = 0 /\ beh = -1 /\ hist = NoHist
 
 Reset == /\ Rec[l].e = "reset"
          /\ LET r == Rec[l] IN
@@ -122,8 +155,9 @@ Reset == /\ Rec[l].e = "reset"
                                                   THEN [on |-> TRUE, kind |-> r.cache0[t].kind, nodes |-> SeqSet(r.cache0[t].nodes),
                                                         seen |-> [n \in SeqSet(r.cache0[t].nodes) |-> 0]]
                                                   ELSE NoC],
-                    !.lastRefresh = r.last_refresh, !.lastPing = r.last_ping, !.server = r.server, !.firewalled = r.firewalled]
-         /\ base' = Rec[l].tid_base /\ beh' = Rec[l].b /\ mode' = "ok" /\ l' = l + 1
+                    !.lastRefresh = r.last_refresh, !.lastPing = r.last_ping, !.server = r.server, !.firewalled = r.firewalled,
+                    !.ghost = IF r.ghost THEN {"g0"} ELSE {}]
+         /\ base' = Rec[l].tid_base /\ beh' = Rec[l].b /\ mode' = "ok" /\ l' = l + 1 /\ hist' = NoHist
 
 \* after a drift the model is no longer stepped, but the formulas that are read off the observations alone still are (a call
 \* that never completes shows on the LAST line of the behaviour); after a violation the behaviour is done
@@ -131,7 +165,7 @@ Skip == /\ Rec[l].e \in {"api", "tick"} /\ mode \in {"skip", "done"}
         /\ IF mode = "skip" /\ beh >= 0 /\ (Rec[l].e = "api" \/ Rec[l].last) /\ L1(Rec[l]) # {}
            THEN PrintT(<<"VIOL", ToJson([line |-> l, b |-> beh, failed |-> L1(Rec[l]), step |-> Rec[l].e])>>)
            ELSE TRUE
-        /\ UNCHANGED mode
+        /\ UNCHANGED mode /\ hist' = HistAfter(Rec[l])
         /\ l' = l + 1 /\ UNCHANGED <<s, base, beh>>
 
 \* The model's successor is computed for one HashMap order after the other until one reproduces the observation (usually
@@ -170,6 +204,7 @@ Api == /\ Rec[l].e = "api" /\ mode = "ok"
               m == [HandleApi(pre, e.t_ms) EXCEPT !.net = {}]
               mk(i) == m
           IN Judge(e, mk, 1, ExpSet(e))
+       /\ hist' = HistAfter(Rec[l])
        /\ l' = l + 1 /\ UNCHANGED <<base, beh>>
 
 TickStep == /\ Rec[l].e = "tick" /\ mode = "ok"
@@ -179,12 +214,13 @@ TickStep == /\ Rec[l].e = "tick" /\ mode = "ok"
                                   val |-> e.input.val, code |-> e.input.code]
                    mk(i) == [Tick(s, input, e.t_ms, ExpSet(e), OrderSeq[i]) EXCEPT !.net = {}]
                IN Judge(e, mk, 6, ExpSet(e))
+            /\ hist' = HistAfter(Rec[l])
             /\ l' = l + 1 /\ UNCHANGED <<base, beh>>
 
 \* the node died (a panic in the code under test is data)
 Dead == /\ Rec[l].e = "dead"
         /\ IF mode \in {"ok", "skip"} THEN PrintT(<<"VIOL", ToJson([line |-> l, b |-> beh, failed |-> {"C06_NodeAlive"}, step |-> "dead"])>>) ELSE TRUE
-        /\ mode' = "done" /\ l' = l + 1 /\ UNCHANGED <<s, base, beh>>
+        /\ mode' = "done" /\ l' = l + 1 /\ UNCHANGED <<s, base, beh, hist>>
 
 TNext == l <= Len(Rec) /\ (Reset \/ Skip \/ Api \/ TickStep \/ Dead)
 TSpec == TInit /\ [][TNext]_tvars
